@@ -2097,6 +2097,22 @@ func ruleFlagGuardedValue(c *Ctx, pkgs ...string) {
 					}
 					return false
 				}
+				// negImplies(cond): cond false => flag true
+				var negImplies func(e ast.Expr) bool
+				negImplies = func(e ast.Expr) bool {
+					e = ast.Unparen(e)
+					switch y := e.(type) {
+					case *ast.UnaryExpr:
+						if y.Op == token.NOT {
+							return implies(y.X, 0)
+						}
+					case *ast.BinaryExpr:
+						if y.Op == token.LOR {
+							return negImplies(y.X) || negImplies(y.Y)
+						}
+					}
+					return false
+				}
 				// examine every read of the value
 				ast.Inspect(fd.Decl.Body, func(x ast.Node) bool {
 					id, ok := x.(*ast.Ident)
@@ -2119,8 +2135,14 @@ func ruleFlagGuardedValue(c *Ctx, pkgs ...string) {
 							if y.Op == token.LAND && y.Y == prev && implies(y.X, 0) {
 								guarded = true
 							}
+							if y.Op == token.LOR && y.Y == prev && negImplies(y.X) {
+								guarded = true // `!flag || <read>`: the right side is evaluated only when the flag is true
+							}
 						case *ast.IfStmt:
 							if y.Body == prev && implies(y.Cond, 0) {
+								guarded = true
+							}
+							if y.Else == prev && negImplies(y.Cond) {
 								guarded = true
 							}
 						case *ast.ForStmt:
